@@ -120,4 +120,16 @@ theorem kw_binder_variable_rejected :
     xsyntaxError (tableOf opTable_v20) lp20 comma20 f04qToks = true ∧
       xebnfParse (gramOf levels20 true (syms opTable_v20)) lp20 comma20 f04qToks = none := by decide +kernel
 
+def f04rToks : List Tok :=
+  [.close 8, .op lp31, .op (symIdx opTable_v31 "?"), .op (symIdx opTable_v31 "-"), .atom 0 6, .close 0, .close 2, .atom 0 1,
+   .close 3, .atom 0 2]
+
+/-- **F04r witness**: `if ( ? - n6 ) then n1 else n2` has the trigger `placeholderAt` (a `?` after the parenthesis of the
+condition, followed by `-`), is rejected by the model (the unary lookup needs a key specifier) and has no derivation
+according to the reference parser; the real 3.1 parser accepts it (placeholder token), observed by the correspondence. -/
+theorem f04r_placeholder_outside_argument_list :
+    placeholderAt (tableOf opTable_v31) (symIdx opTable_v31 "?") lp31 comma31 f04rToks = true ∧
+      xsyntaxError (tableOf opTable_v31) lp31 comma31 f04rToks = true ∧
+      xebnfParse (gramOf levels31 true (syms opTable_v31)) lp31 comma31 f04rToks = none := by decide +kernel
+
 end EPV.C04
